@@ -255,9 +255,48 @@ def rlnStep (st : St) (w : List String) : St × String :=
     | _, _ => (st, "bad-op")
   | _ => (st, "bad-op")
 
+/-- C11 lockstep ops: the same calls as `rln …`, results rendered the way the byte-level API returns them -/
+def lockStep (st : St) (w : List String) : St × String :=
+  let e := st.env
+  let spec := e.mode == .spec
+  match w with
+  | ["root"] => match rlnView st with
+    | some (r, _, _, _) => (st, "ok " ++ showBytes (natLE 32 (r ())))
+    | none => (st, "bad-op")
+  | ["get_leaf", i] => let (st', r) := rlnStep st ["get_leaf", i]
+    (st', if r == "err" || r == "panic" || r == "bad-op" then r else match parseHexNat r with
+      | some v => "ok " ++ showBytes (natLE 32 v) | none => r)
+  | ["seq_atomic", vs, idx] => match rlnView st with
+    | some (_, _, nxt, _) => rlnStep st ["atomic", hexOfNat nxt, vs, idx]
+    | none => (st, "bad-op")
+  | ["meta_set", b] => treeStep st ["meta", "set", b]
+  | ["meta_get"] => let (st', r) := treeStep st ["meta", "get"]; (st', "ok " ++ r)
+  | ["flush"] => treeStep st ["close"]
+  | ["set_tree", h] => match h.toNat? with
+    | some d => match TreeDriver.newInst { H := e.H2, spec := spec } "pm" d with
+      | some inst => ({ st with inst := some { inst := inst }, rootCache := none }, "ok")
+      | none => (st, "bad-op")
+    | none => (st, "bad-op")
+  | ["set_leaf_raw", i, b] => match parseHexBytes b with
+    | some bs => if bs.length < 32 then (st, "n/a") else rlnStep st ["set_leaf", i, hexOfNat (leNat (bs.take 32) % P)]
+    | none => (st, "bad-op")
+  | ["hash", b] => match parseHexBytes b with
+    | some bs => (st, showOk ((pubHash e bs).map showBytes))
+    | none => (st, "bad-op")
+  | ["poseidon", b] => match parseHexBytes b with
+    | some bs => (st, match pubPoseidon e bs with
+      | .ok r => "ok " ++ showBytes r | .err => "err" | .panic => "panic")
+    | none => (st, "bad-op")
+  | "seeded_key_gen" :: _ | "seeded_ext_key_gen" :: _ =>
+    match ProtoDriver.stepPure (protoEnv e) ("rln" :: w) with
+    | some r => (st, r)
+    | none => (st, "bad-op")
+  | _ => rlnStep st w
+
 def step (st : St) (line : String) : St × String :=
   let e := st.env
   match line.trimAscii.toString.splitOn " " with
+  | "lock" :: rest => lockStep st rest
   | "graph" :: rest => match GraphDriver.step (e.mode == .spec) ("graph" :: rest) with
     | some r => (st, r)
     | none => (st, "bad-op")
